@@ -273,6 +273,23 @@ def native_C04(tier, seed):
     cases += 1
     if abs(nd - float(lj[0])) > 1e-6:
         bad("C04-affine-refit", "affine_deriv", f"after a second fit the log-Jacobian {float(lj[0])} is not that of the current map ({nd})", {"class": "AffineTransform", "sequence": "fit, fit"})
+    # the transform works on a copy whatever array type it is handed: a NumPy input to a torch-namespace transform must come back untouched
+    try:
+        import torch
+        import array_api_compat.torch as xtorch
+        for aff in (False, True):
+            cases += 1
+            ct = CompositeTransform(parameters=["a", "b"], prior_bounds={"a": [0, 1], "b": [0, 1]}, xp=xtorch, dtype=torch.float64, affine_transform=aff)
+            xin = rng.uniform(0.1, 0.9, size=(7, 2))
+            keep = xin.copy()
+            for meth in ("fit", "forward", "inverse"):
+                getattr(ct, meth)(xin)
+                if not np.array_equal(xin, keep):
+                    bad(f"C04-input-modified-{meth}-affine{aff}", "the input array is left unchanged", f"CompositeTransform.{meth}(numpy array) with a torch namespace overwrote the caller's array (max change {np.abs(xin - keep).max():.3g})",
+                        {"namespace": "torch", "input": "numpy.ndarray", "method": meth, "affine": aff})
+                    xin[:] = keep
+    except ImportError:
+        pass
     # affine whitening of columns measured in tiny (and huge) units, in both float widths: the round trip and the log-Jacobian are relative to the scale
     for nsname, xp, dts in namespaces():
         for dtn, dt in dts.items():
